@@ -4,6 +4,7 @@
 use crate::exec::*;
 use crate::plan::*;
 use crate::world::*;
+use std::collections::BTreeMap;
 use std::rc::Rc;
 
 pub const INDEX_HEADER_LEN: usize = 83;
@@ -192,6 +193,10 @@ pub fn build_power_loss_image(ctx: &Rc<RunCtx>, cut: &PowerCut) {
         let w = world.inner.borrow();
         w.shadows.iter().filter(|(n, s)| !n.contains('/') && !s.removed && !s.quarantined).map(|(n, _)| n.clone()).collect()
     };
+    let before: BTreeMap<String, Vec<u8>> = {
+        let w = world.inner.borrow();
+        names.iter().map(|n| (n.clone(), w.shadows[n].content.clone())).collect()
+    };
     // the file with the most recent un-synced write gets the partial cut
     let victim: Option<String> = {
         let w = world.inner.borrow();
@@ -255,4 +260,27 @@ pub fn build_power_loss_image(ctx: &Rc<RunCtx>, cut: &PowerCut) {
         }
     }
     world.inner.borrow_mut().fired.bump("power_loss");
+    // C06 "blobs closed and indexed before the crash are served in full": an index file that is
+    // complete in the surviving image describes a blob length; every byte below that length must
+    // have survived as well (the index is written only after the blob was synced)
+    for (name, _) in before.iter() {
+        let FileKind::Index(id) = classify(name) else { continue };
+        let img = { world.inner.borrow().shadows.get(name).map(|s| s.content.clone()).unwrap_or_default() };
+        if img.len() < INDEX_HEADER_LEN || img[INDEX_VERSION_BYTE] & 1 == 0 {
+            continue;
+        }
+        let described = u64::from_le_bytes(img[75..83].try_into().unwrap()) as usize;
+        let bname = blob_name(id);
+        let Some(pre) = before.get(&bname) else { continue };
+        let holes = world.inner.borrow().shadows.get(&bname).map(|s| s.has_holes).unwrap_or(false);
+        if holes || pre.len() < described {
+            continue;
+        }
+        let post = { world.inner.borrow().shadows.get(&bname).map(|s| s.content.clone()).unwrap_or_default() };
+        world.probe("indexed_blob_checked_after_power_loss");
+        if post.len() < described || post[..described] != pre[..described] {
+            let first = (0..described).find(|i| post.get(*i) != pre.get(*i)).unwrap_or(0);
+            ctx.violate_post_mortem(&["C06", "C12"], "indexed-blob-lost-bytes", "a blob whose index file was complete on disk at the power loss lost bytes that the index describes", format!("{} describes {} bytes of {}; the surviving file has {} bytes, first difference at {}", name, described, bname, post.len(), first));
+        }
+    }
 }
